@@ -166,7 +166,7 @@ fn check_api_subset(ctx: &mut Ctx, a: &Ast, text: &str, subset: &[usize]) {
     let c = json!({"part": "api-subset", "text": text, "subset": subset});
     ctx.begin_case(|| c.clone());
     ctx.count("evaluations", 1);
-    let ids = [2usize, 5, 9, 14];
+    let ids = [2usize, 5, 34, 98];
     let ordering: Vec<rsbdd::NamedSymbol> = subset.iter().enumerate().map(|(j, p)| sym(&exp.names[*p], ids[j])).collect();
     let mut order: Vec<String> = subset.iter().map(|p| exp.names[*p].clone()).collect();
     for n in &exp.names {
@@ -221,7 +221,8 @@ fn check_api(ctx: &mut Ctx, a: &Ast, text: &str, perm: &[usize], with_unused: bo
     ctx.begin_case(|| c.clone());
     ctx.count("evaluations", 1);
     // distinct, non-contiguous ids in the order of the permutation
-    let ids = [3usize, 7, 11, 20, 21, 40, 41];
+    // gaps, and ids congruent modulo 32 / 64
+    let ids = [3usize, 7, 35, 99, 163, 227, 291];
     let mut ordering = vec![];
     let mut order: Vec<String> = vec![];
     let mut slot = 0;
